@@ -19,6 +19,7 @@ import (
 )
 
 var prop = flag.String("prop", "C18", "C05|C10|C11|C15|C18")
+var debugHist = flag.String("debughist", "", "")
 var debugScen = flag.Int("debugscen", -1, "print the focus points of one scenario")
 
 // ---- shared helpers ----
@@ -369,6 +370,19 @@ func main() {
 	r.ReloadKnown()
 	if *prop == "C15" {
 		c15Main(r)
+		return
+	}
+	if *prop == "C10" {
+		if *debugHist != "" {
+			c := c10cfg{bTrustsA: false, seed: "none"}
+			x := simrt.Run(simrt.Config{Describe: true, MaxSteps: 20000}, nil, func() { c10Build(c)(strings.Split(*debugHist, ",")) })
+			n := len(x.TraceLog)
+			for _, l := range x.TraceLog[n-80:] {
+				fmt.Println(l)
+			}
+			return
+		}
+		c10Main(r)
 		return
 	}
 	var scens []hx.Scenario
